@@ -164,6 +164,29 @@ pub fn de_all(t: &DTy, bytes: &[u8]) -> Result<DeRes, String> {
     Ok(take)
 }
 
+/// Schema-side poison (run before every op line of the schema properties): extreme but legal inputs - an owned
+/// schema VALUE nested far deeper than any recursion budget or depth counter a crate might keep per thread, and
+/// a truncated one. Whatever the crate answers, the answer must not change what the NEXT call does (a counter that
+/// leaks on a refusal, a cache keyed by something too coarse, a budget that is never refunded).
+pub fn poison_schema() {
+    use postcard_schema::schema::owned::OwnedDataModelType as O;
+    thread_local! {
+        static DEEP: Vec<u8> = {
+            let mut t = O::U8;
+            for _ in 0..2600 {
+                t = O::Option(Box::new(t));
+            }
+            postcard::to_allocvec(&t).unwrap_or_default()
+        };
+    }
+    DEEP.with(|deep| {
+        let _ = guard(|| {
+            let _ = postcard::from_bytes::<O>(deep);
+            let _ = postcard::from_bytes::<O>(&deep[..deep.len() / 2]);
+        });
+    });
+}
+
 /// Calls that FAIL part-way through every encode / decode entry point. Run before every op line: no entry
 /// point may keep state from one call to the next (scratch buffers, thread-locals, statics), so a failed
 /// call must not change what the next call does.
